@@ -1053,3 +1053,29 @@ def p_c04_deadline(tr, V, st, timeout_us=5000000):
                 elif p.tmo is None or p.tmo > ts + timeout_us - p.now:
                     V.append(dict(sig='C04 time-out registered for poll is later than a head action deadline', at=p.i, dev=di, tmo=p.tmo, deadline_in=ts + timeout_us - p.now))
             prevhead[di] = ident
+
+
+def p_c04_xpoll(tr, V, st):
+    """the time-out the daemon really sleeps with (what xpoll hands to poll, every call) against the timer dev_post_poll registered in
+    the pass before: none registered -> -1; registered -> never negative (a negative value is a sleep without limit: the request
+    whose timer this is can then only be completed by unrelated traffic) and never longer than what is left of it, also when the
+    sleep is interrupted by a caught signal and poll is called again"""
+    prev = None
+    for p in tr:
+        if p.teardown or p.died: break
+        if p.op[0] == 'P' and prev is not None and prev.op[0] == 'P':
+            reg = prev.tmo
+            for k, t in enumerate(p.polltmos):
+                st['C04 poll calls checked against the registered timer'] += 1
+                if k > 0: st['C04 poll calls repeated after EINTR'] += 1
+                if reg is None:
+                    if t != -1: V.append(dict(sig='C04 poll time-out without a registered timer', at=p.i, polltmo=t))
+                    continue
+                left = reg if k == 0 else max(0, reg - (p.hup or 0))
+                if t < 0:
+                    V.append(dict(sig='C04 the daemon sleeps in poll without time-out although a timer is registered', at=p.i, registered_us=reg, polltmo=t, call=k, interrupted_after_us=p.hup)); break
+                if t * 1000 > left:
+                    V.append(dict(sig='C04 the daemon sleeps in poll longer than the registered timer allows', at=p.i, registered_us=reg, polltmo=t, call=k, interrupted_after_us=p.hup)); break
+            if p.hup is not None and len(p.polltmos) < 2:
+                V.append(dict(sig='C04 interrupted poll was not repeated', at=p.i))
+        prev = p
